@@ -125,6 +125,12 @@ def join_tasks(tier, role):
                                   'of the sides and every position of LeftEnd/RightEnd, %d iteration(s), hash map '
                                   'order arbitrary' % (algo, variant, n[0], n[1], n[2]),
                            role=role, opts={'covers': ['matched_pair']}, budget=300))
+    # nothing carried over into the next iteration (C05): two iterations, small sides
+    for algo in ('hash', 'sort_merge'):
+        ts.append(Task('join_%s_outer_2iter' % algo, 'join_harness',
+                       {'algo': algo, 'variant': 'Outer', 'nl': 1, 'nr': 2, 'iters': 2},
+                       bounds='%s outer join, 2 iterations x (<=1 left, <=2 right) items, symbolic keys' % algo,
+                       role=role, opts={'covers': ['matched_pair']}, budget=300))
     if tier != 'quick':
         for algo in ('hash', 'sort_merge'):
             ts.append(Task('join_%s_outer_3x2' % algo, 'join_harness',
